@@ -881,22 +881,42 @@ class GridClipDataKinds(Contract):
     symbolic = False
     has_native = True
     props = ("C13",)
-    bounded_scope = "block model (3x3x2), octree (4x4x4 base), 2-D grid (6x5) with float, integer, boolean, referenced and text cell data; 3 boxes (keeps part, keeps all, keeps a corner) x both inverse values (exhaustive)"
+    bounded_scope = "block model (3x3x2), octree (4x4x4 base), 2-D grid (6x5) with float, integer, boolean, referenced and text cell data; 3 boxes (keeps part, keeps all, keeps a corner) x both inverse values, plus the 2-D grid rotated by 30 and -50 degrees (exhaustive); compared live and by a later reader of the file"
 
     def native_cases(self, tier, rng):
         for kind in ("blockmodel", "octree", "grid2d"):
             for box in ("keeps-part", "keeps-all", "corner"):
                 for inverse in (False, True):
                     yield {"kind": kind, "box": box, "inverse": inverse}
+        # a rotated 2-D grid: the smallest covering sub-grid holds cells outside the box, which are blanked
+        for rot in (30.0, -50.0):
+            for box in ("keeps-part", "corner"):
+                yield {"kind": "grid2d", "box": box, "inverse": False, "rotation": rot}
 
     def native_check(self, case):
         from contracts.copy_wf import EXTENTS, build
         from geoh5py.workspace import Workspace
 
+        import os
+        import shutil
+        import tempfile
+
         boxes = dict(EXTENTS, corner=np.array([[-5.0, -5.0], [12.0, 12.0]]))
         box = boxes[case["box"]]
-        with Workspace() as ws:
+        d = tempfile.mkdtemp()
+        try:
+            return self._run(case, box, os.path.join(d, "clip.geoh5"))
+        finally:
+            shutil.rmtree(d, ignore_errors=True)
+
+    def _run(self, case, box, path):
+        from contracts.copy_wf import build
+        from geoh5py.workspace import Workspace
+
+        with Workspace.create(path) as ws:
             obj = build(ws, case["kind"])
+            if case.get("rotation"):
+                obj.rotation = case["rotation"]
             n = obj.n_cells
             src = {
                 "f": np.arange(n, dtype=float) + 0.5,
@@ -915,6 +935,18 @@ class GridClipDataKinds(Contract):
                 return f"clipping a {case['kind']} holding float / integer / boolean / referenced / text cell data raised {type(exc).__name__}: {exc} ({case})"
             if out is None:
                 return None if not inside.any() or case["inverse"] else f"{int(inside.sum())} cell centres qualify but nothing was copied ({case})"
+            out_uid = out.uid
+            bad = self._compare(out, cent, inside, src, case, "")
+            if bad:
+                return bad
+            del out, obj
+        # what a later reader of the file finds on the clipped object
+        with Workspace(path, mode="r") as ws:
+            return self._compare(ws.get_entity(out_uid)[0], cent, inside, src, case, " after re-opening the file")
+
+    @staticmethod
+    def _compare(out, cent, inside, src, case, when):
+        if True:
             oc = np.asarray(out.centroids, dtype=float)
             # each cell of the copy is a cell of the source (same centre): find it
             idx = []
@@ -929,7 +961,7 @@ class GridClipDataKinds(Contract):
                 got = out.get_data(name)
                 if not got or got[0].values is None:
                     return f"data '{name}' is missing on the clipped {case['kind']} ({case})"
-                g = np.asarray(got[0].values)
+                g = np.atleast_1d(np.asarray(got[0].values))  # one entry of text is stored, and read back, as a bare string
                 if len(g) != len(idx):
                     return f"data '{name}' has {len(g)} entries for {len(idx)} cells ({case})"
                 want = vals[idx]
